@@ -30,6 +30,17 @@ class FakeConnection:
         pass
 
 
+_extracted = {}
+
+
+def _loop_send():
+    from .extract import async_runner
+
+    if 'send' not in _extracted:
+        _extracted['send'] = async_runner('reactor/peer/peer.py', 'Peer._main', 'new_routes, include_withdraw = await self._send_route_updates(', 'send_eor = await self._send_eor_messages(')
+    return _extracted['send']
+
+
 def make_proto(peer, neg):
     """the real Protocol of the real peer; only its transport is replaced by the recording stub"""
     from exabgp.reactor.protocol import Protocol
@@ -78,8 +89,10 @@ class Sess:
         """one iteration of the sending part of the main loop (real coroutines)"""
 
         async def go():
-            self.new_routes, self.include_withdraw = await self.peer._send_route_updates(self.new_routes, self.include_withdraw, routes_per_iteration)
-            self.send_eor = await self.peer._send_eor_messages(self.send_eor, self.new_routes)
+            # the two sending statements of the loop of Peer._main, extracted from its source and executed unmodified
+            # (calling the helpers by hand would hide a change in how the loop calls them)
+            locs = await _loop_send()(self=self.peer, new_routes=self.new_routes, include_withdraw=self.include_withdraw, routes_per_iteration=routes_per_iteration, send_eor=self.send_eor)
+            self.new_routes, self.include_withdraw, self.send_eor = locs['new_routes'], locs['include_withdraw'], locs['send_eor']
 
         asyncio.new_event_loop().run_until_complete(go())
         self._absorb()
